@@ -78,8 +78,8 @@ def one(cases, rng, tier, rep, d):
                 for nm, f in (("add", lambda x=x, y=y: x + y), ("sub", lambda x=x, y=y: x - y), ("mul", lambda x=x, y=y: x * y)):
                     mk(cases, "%s/tt/mode-mismatch/pos%d/%s" % (nm, pos, tag), f, ShapeMismatch,
                        model=J("guard", nm, shape_tok(x), shape_tok(y)))
-                mk(cases, "dot/mode-mismatch/pos%d/%s" % (pos, tag), lambda x=x, y=y: torchtt.dot(x, y), ShapeMismatch)
-                mk(cases, "truediv/mode-mismatch/pos%d/%s" % (pos, tag), lambda x=x, y=y: x / y, ShapeMismatch)
+                mk(cases, "dot/mode-mismatch/pos%d/%s" % (pos, tag), lambda x=x, y=y: torchtt.dot(x, y), ShapeMismatch, model=J("guard2", "dot", shape_tok(x), shape_tok(y)))
+                mk(cases, "truediv/mode-mismatch/pos%d/%s" % (pos, tag), lambda x=x, y=y: x / y, ShapeMismatch, model=J("guard2", "truediv", shape_tok(x), shape_tok(y)))
                 # TT-matrices: row mismatch and column mismatch
                 M2 = list(M); M2[pos] = M[pos] + 1
                 Brow = rnd_tt(rng, N, M2)
@@ -107,40 +107,42 @@ def one(cases, rng, tier, rep, d):
                    model=J("guard", "matmul", shape_tok(xl), shape_tok(A)))
                 dn = tn.ones([2] + N2, dtype=tn.float64)
                 mk(cases, "matmul/ttm-dense/mismatch/pos%d/%s" % (pos, tag), lambda A=A, dn=dn: A @ dn, ShapeMismatch)
-                mk(cases, "bilinear/shape/pos%d/%s" % (pos, tag), lambda A=A, xl=xl, x=x: torchtt.bilinear_form(xl, A, x), ShapeMismatch)
+                mk(cases, "bilinear/shape/pos%d/%s" % (pos, tag), lambda A=A, xl=xl, x=x: torchtt.bilinear_form(xl, A, x), ShapeMismatch, model=J("guard2", "bilinear", shape_tok(xl), shape_tok(A), shape_tok(x)))
                 mk(cases, "fast_matvec/inner-mismatch/pos%d/%s" % (pos, tag), lambda A=A, xv=xv: A.fast_matvec(xv, use_cpp=False), None)
                 mk(cases, "amen_mv/inner-mismatch/pos%d/%s" % (pos, tag), lambda A=A, xv=xv: torchtt.amen_mv(A, xv, use_cpp=False), None)
                 mk(cases, "cat/mode-mismatch/pos%d/%s" % (pos, tag),
-                   lambda x=x, y=y, pos=pos, d=d: torchtt.cat((x, y), (pos + 1) % d) if d > 1 else (_ for _ in ()).throw(InvalidArguments("n/a")), InvalidArguments)
+                   lambda x=x, y=y, pos=pos, d=d: torchtt.cat((x, y), (pos + 1) % d) if d > 1 else (_ for _ in ()).throw(InvalidArguments("n/a")), InvalidArguments,
+                   model=J("guard2", "cat", shape_tok(x), shape_tok(y), (pos + 1) % d) if d > 1 else None)
                 F = tn.ones([2, N[pos] + 1], dtype=tn.float64)
-                mk(cases, "mprod/mode-mismatch/pos%d/%s" % (pos, tag), lambda x=x, F=F, pos=pos: x.mprod(F, pos), ShapeMismatch)
+                mk(cases, "mprod/mode-mismatch/pos%d/%s" % (pos, tag), lambda x=x, F=F, pos=pos: x.mprod(F, pos), ShapeMismatch, model=J("guard2", "mprod", shape_tok(x), pos, N[pos] + 1))
             # --- order mismatch
             z = rnd_tt(rng, N + [2])
             mk(cases, "add/order-mismatch-left-smaller/" + tag, lambda x=x, z=z: x + z, ShapeMismatch, model=J("guard", "add", shape_tok(x), shape_tok(z)))
             mk(cases, "mul/order-mismatch-left-smaller/" + tag, lambda x=x, z=z: x * z, ShapeMismatch, model=J("guard", "mul", shape_tok(x), shape_tok(z)))
-            mk(cases, "dot/order-mismatch/" + tag, lambda x=x, z=z: torchtt.dot(x, z), ShapeMismatch)
+            mk(cases, "dot/order-mismatch/" + tag, lambda x=x, z=z: torchtt.dot(x, z), ShapeMismatch, model=J("guard2", "dot", shape_tok(x), shape_tok(z)))
             mk(cases, "dot/partial/first-has-fewer-modes/" + tag, lambda x=x, z=z: torchtt.dot(x, z, [0]), ShapeMismatch)
-            mk(cases, "cat/order-mismatch/" + tag, lambda x=x, z=z: torchtt.cat((x, z), 0), InvalidArguments)
+            mk(cases, "cat/order-mismatch/" + tag, lambda x=x, z=z: torchtt.cat((x, z), 0), InvalidArguments, model=J("guard2", "cat", shape_tok(x), shape_tok(z), 0))
             mk(cases, "matmul/order-mismatch/" + tag, lambda A=A, z=z: A @ z, ShapeMismatch, model=J("guard", "matmul", shape_tok(A), shape_tok(z)))
             # --- kind mismatch
             for nm, f in (("add", lambda x=x, A=A: x + A), ("add-rev", lambda x=x, A=A: A + x), ("sub", lambda x=x, A=A: x - A),
                           ("mul", lambda x=x, A=A: x * A), ("mul-rev", lambda x=x, A=A: A * x), ("truediv", lambda x=x, A=A: x / A),
                           ("kron", lambda x=x, A=A: x ** A), ("kron-fn", lambda x=x, A=A: torchtt.kron(A, x))):
                 mk(cases, "%s/kind-mismatch/%s" % (nm, tag), f, IncompatibleTypes,
-                   model=J("guard", nm.split("-")[0], shape_tok(A if "rev" in nm else x), shape_tok(x if "rev" in nm else A)) if nm.split("-")[0] in ("add", "sub", "mul") else None)
+                   model=J("guard", nm.split("-")[0], shape_tok(A if "rev" in nm else x), shape_tok(x if "rev" in nm else A)) if nm.split("-")[0] in ("add", "sub", "mul")
+                   else (J("guard2", "truediv", shape_tok(x), shape_tok(A)) if nm == "truediv" else J("guard2", "kron", shape_tok(A if nm == "kron-fn" else x), shape_tok(x if nm == "kron-fn" else A))))
             mk(cases, "matmul/tt-tt/" + tag, lambda x=x: x @ x, InvalidArguments, model=J("guard", "matmul", shape_tok(x), shape_tok(x)))
             mk(cases, "t/on-tensor/" + tag, lambda x=x: x.t(), InvalidArguments)
             mk(cases, "M/on-tensor/" + tag, lambda x=x: x.M, IncompatibleTypes)
-            mk(cases, "fast_matvec/kinds/tensor-first/" + tag, lambda x=x: x.fast_matvec(x), IncompatibleTypes)
-            mk(cases, "fast_matvec/kinds/ttm-second/" + tag, lambda A=A: A.fast_matvec(A), IncompatibleTypes)
-            mk(cases, "dot/ttm/" + tag, lambda A=A: torchtt.dot(A, A), NotImplementedError)
+            mk(cases, "fast_matvec/kinds/tensor-first/" + tag, lambda x=x: x.fast_matvec(x), IncompatibleTypes, model=J("guard2", "fast_matvec", shape_tok(x), shape_tok(x)))
+            mk(cases, "fast_matvec/kinds/ttm-second/" + tag, lambda A=A: A.fast_matvec(A), IncompatibleTypes, model=J("guard2", "fast_matvec", shape_tok(A), shape_tok(A)))
+            mk(cases, "dot/ttm/" + tag, lambda A=A: torchtt.dot(A, A), NotImplementedError, model=J("guard2", "dot", shape_tok(A), shape_tok(A)))
             mk(cases, "dot/partial/ttm/" + tag, lambda A=A, x=x: torchtt.dot(x, A, [0]), NotImplementedError)
-            mk(cases, "bilinear/kinds/" + tag, lambda A=A, x=x: torchtt.bilinear_form(x, x, x), IncompatibleTypes)
-            mk(cases, "mprod/ttm/" + tag, lambda A=A: A.mprod(tn.ones(2, 2), 0), IncompatibleTypes)
-            mk(cases, "cat/ttm/" + tag, lambda A=A: torchtt.cat((A, A), 0), InvalidArguments)
+            mk(cases, "bilinear/kinds/" + tag, lambda A=A, x=x: torchtt.bilinear_form(x, x, x), IncompatibleTypes, model=J("guard2", "bilinear", shape_tok(x), shape_tok(x), shape_tok(x)))
+            mk(cases, "mprod/ttm/" + tag, lambda A=A: A.mprod(tn.ones(2, 2), 0), IncompatibleTypes, model=J("guard2", "mprod", shape_tok(A), 0, 2))
+            mk(cases, "cat/ttm/" + tag, lambda A=A: torchtt.cat((A, A), 0), InvalidArguments, model=J("guard2", "cat", shape_tok(A), shape_tok(A), 0))
             sq = rnd_tt(rng, N, N)
-            mk(cases, "amen_solve/b-is-ttm/" + tag, lambda sq=sq: torchtt.solvers.amen_solve(sq, sq, use_cpp=False), IncompatibleTypes)
-            mk(cases, "amen_solve/A-is-tensor/" + tag, lambda x=x: torchtt.solvers.amen_solve(x, x, use_cpp=False), IncompatibleTypes)
+            mk(cases, "amen_solve/b-is-ttm/" + tag, lambda sq=sq: torchtt.solvers.amen_solve(sq, sq, use_cpp=False), IncompatibleTypes, model=J("guard2", "amen_solve", shape_tok(sq), shape_tok(sq), 1))
+            mk(cases, "amen_solve/A-is-tensor/" + tag, lambda x=x: torchtt.solvers.amen_solve(x, x, use_cpp=False), IncompatibleTypes, model=J("guard2", "amen_solve", shape_tok(x), shape_tok(x), 1))
             mk(cases, "amen_solve/non-square/" + tag, lambda N=N: torchtt.solvers.amen_solve(rnd_tt(rng, N, [n + 1 for n in N]), rnd_tt(rng, [n + 1 for n in N]), use_cpp=False), ShapeMismatch)
             mk(cases, "amen_solve/rhs-shape/" + tag, lambda sq=sq, N=N: torchtt.solvers.amen_solve(sq, rnd_tt(rng, [n + 1 for n in N]), use_cpp=False), ShapeMismatch)
             mk(cases, "amen_mm/kinds/" + tag, lambda A=A, x=x: torchtt.amen_mm(A, x), None)
@@ -192,15 +194,15 @@ def one(cases, rng, tier, rep, d):
             mk(cases, "apply_mask/index-out-of-range/" + tag, lambda x=x, d=d: x.apply_mask(tn.tensor([[N[0] + 5] + [0] * (d - 1)])), None)
             mk(cases, "mprod/mode-out-of-range/" + tag, lambda x=x, d=d: x.mprod(tn.ones(2, 2), d + 1), None)
             mk(cases, "mprod/list-vs-int/" + tag, lambda x=x: x.mprod([tn.ones(2, N[0])], 0), InvalidArguments)
-            mk(cases, "cat/dim-out-of-range/" + tag, lambda x=x, d=d: torchtt.cat((x, x), d + 1), InvalidArguments)
-            mk(cases, "pad/too-many/" + tag, lambda x=x, d=d: torchtt.pad(x, tuple((1, 1) for _ in range(d + 1))), InvalidArguments)
+            mk(cases, "cat/dim-out-of-range/" + tag, lambda x=x, d=d: torchtt.cat((x, x), d + 1), InvalidArguments, model=J("guard2", "cat", shape_tok(x), shape_tok(x), d + 1))
+            mk(cases, "pad/too-many/" + tag, lambda x=x, d=d: torchtt.pad(x, tuple((1, 1) for _ in range(d + 1))), InvalidArguments, model=J("guard2", "pad", d, d + 1))
             # --- permutations / shapes / ranks
-            mk(cases, "permute/length/" + tag, lambda x=x, d=d: torchtt.permute(x, list(range(d + 1))), ShapeMismatch)
+            mk(cases, "permute/length/" + tag, lambda x=x, d=d: torchtt.permute(x, list(range(d + 1))), ShapeMismatch, model=J("guard2", "permute", d, d + 1, list(range(d + 1))))
             if d > 1:
-                mk(cases, "permute/duplicate/" + tag, lambda x=x, d=d: torchtt.permute(x, [0] * d), InvalidArguments)
-                mk(cases, "permute/range/" + tag, lambda x=x, d=d: torchtt.permute(x, list(range(1, d + 1))), InvalidArguments)
+                mk(cases, "permute/duplicate/" + tag, lambda x=x, d=d: torchtt.permute(x, [0] * d), InvalidArguments, model=J("guard2", "permute", d, d, [0] * d))
+                mk(cases, "permute/range/" + tag, lambda x=x, d=d: torchtt.permute(x, list(range(1, d + 1))), InvalidArguments, model=J("guard2", "permute", d, d, list(range(1, d + 1))))
                 mk(cases, "permute/negative/" + tag, lambda x=x, d=d: torchtt.permute(x, [-1] + list(range(1, d))), InvalidArguments)
-            mk(cases, "reshape/element-count/" + tag, lambda x=x: torchtt.reshape(x, [int(np.prod(N)) + 1]), ShapeMismatch)
+            mk(cases, "reshape/element-count/" + tag, lambda x=x: torchtt.reshape(x, [int(np.prod(N)) + 1]), ShapeMismatch, model=J("guard2", "reshape", len(N), N, 1, int(np.prod(N)) + 1))
             mk(cases, "reshape/ttm-element-count/" + tag, lambda A=A: torchtt.reshape(A, [(int(np.prod(M)) + 1, int(np.prod(N)))]), ShapeMismatch)
             mk(cases, "reshape/same-count-not-factorable/" + tag, lambda: torchtt.reshape(rnd_tt(rng, [6] * 1 + [1] * (d - 1)), [4, 1, 1][:1] + [1] * 0) if False else torchtt.reshape(rnd_tt(rng, [2, 3]), [7]), ShapeMismatch)
             mk(cases, "random/rank-list/" + tag, lambda d=d: torchtt.random(N, [1] + [2] * d + [1]), InvalidArguments)
@@ -233,8 +235,11 @@ def controls(rng, tier):
                            ("mul-ttm", lambda A=A, B=B: A * B, J("guard", "mul", shape_tok(A), shape_tok(B))),
                            ("matmul", lambda A=A, x=x: A @ x, J("guard", "matmul", shape_tok(A), shape_tok(x))),
                            ("bcast", lambda x=x: x + rnd_tt(rng, x.N[-1:]), None),
-                           ("dot", lambda x=x, y=y: torchtt.dot(x, y), None),
-                           ("permute", lambda x=x, d=d: torchtt.permute(x, list(range(d))[::-1]) if d > 1 else x.clone(), None),
+                           ("dot", lambda x=x, y=y: torchtt.dot(x, y), J("guard2", "dot", shape_tok(x), shape_tok(y))),
+                           ("bilinear", lambda x=x, A=A: torchtt.bilinear_form(rnd_tt(rng, A.M), A, x), J("guard2", "bilinear", ["T", len(A.M)] + list(A.M) + [0], shape_tok(A), shape_tok(x))),
+                           ("cat", lambda x=x, y=y: torchtt.cat((x, y), 0), J("guard2", "cat", shape_tok(x), shape_tok(y), 0)),
+                           ("kron", lambda x=x, y=y: x ** y, J("guard2", "kron", shape_tok(x), shape_tok(y))),
+                           ("permute", lambda x=x, d=d: torchtt.permute(x, list(range(d))[::-1]) if d > 1 else x.clone(), J("guard2", "permute", d, d, list(range(d))[::-1]) if d > 1 else None),
                            ("sum", lambda x=x: x.sum([0]), None)):
             def impl(f=f):
                 r = f()
@@ -248,7 +253,7 @@ def run(res, rng, tier, known):
     cases = build(rng, tier) + controls(rng, tier)
     # the model answers with an outcome class: `ok` or `err <Kind>`; map the implementation's outcome onto the same alphabet
     for c in cases:
-        if c.line is not None and c.line.startswith("guard"):
+        if c.line is not None and (c.line.startswith("guard ") or c.line.startswith("guard2 ")):
             impl0 = c.impl
 
             def wrapped(impl0=impl0):
